@@ -8,26 +8,19 @@ from vlib import VERIF
 SEM_TYPES = ["fn", "path", "fpath", "b64", "user", "group", "rfn2", "rfn3", "rfn5"]
 STR_TYPES = ["svc", "node"]
 
-# class tag printed by the driver (computed with the Coq predicates err_kind_class /
-# full_zero_class / log_buffer_class, or from the operation) -> key of the finding
+# class tag printed by the driver (computed with extracted Coq predicates) -> key of the finding.
+# Only listings whose surplus is explained by a prefix-of-prefix pair of configurations map to the
+# known finding F4; everything else that disagrees with the spec is a fresh violation.
 KEYS = {
-    "err-kind": "semstr:invalid-char-reported-as-exceeds-maximum-length",
-    "full-zero-panic": "semstr:zero-length-removal-on-full-string-panics",
-    "log-buffer-panic": "semstr:strip-with-more-than-123-bytes-panics-on-invalid-content",
-    "addentry-partial": "path:add-path-entry-error-leaves-separator",
-    "frompf-debug-assert": "filepath:from-path-and-file-debug-assert-at-length-boundary",
-    "extract-stray-panic": "cfg:extract-name-panics-on-stray-file",
-    "isolation": "cfg:isolation-prefix-of-prefix",
+    "isolation-prefix-of-prefix": "cfg:isolation-prefix-of-prefix",
+    "unchecked-name": "filename:unchecked-conversion-yields-invalid-filename",
 }
 WHAT = {
-    "err-kind": "F15: a NUL / non-ASCII byte that fits is rejected with ExceedsMaximumLength instead of InvalidContent (semantic_string.rs insert_bytes maps every String error to ExceedsMaximumLength)",
-    "full-zero-panic": "a zero-length removal on a full string panics: remove_range(i, 0), strip_prefix(b\"\"), strip_suffix(b\"\") index data[capacity] (string/mod.rs remove_range writes the terminator unguarded)",
-    "log-buffer-panic": "strip_prefix/strip_suffix with an argument longer than 123 bytes whose removal is rejected panics instead of returning Err(InvalidContent) (semantic_string.rs copies the argument into a StaticString<123> for the log message)",
-    "addentry-partial": "Path::add_path_entry that fails in its second step returns Err but has already appended the separator (value changed on error)",
-    "frompf-debug-assert": "FilePath::from_path_and_file accepts a result of exactly 254/255 bytes but from_path_and_file_unchecked debug_asserts len+1 < 255: panic in builds with debug assertions",
-    "extract-stray-panic": "NamedConceptConfiguration::extract_name_from_file fatal-panics on a directory entry named prefix, prefix+suffix, prefix+'.'(+suffix), prefix+'..'(+suffix): any such stray file makes every list() of that directory panic",
-    "isolation": "F4: a configuration whose prefix is a proper prefix of another one's lists the other domain's resources in a shared directory (extract_name_from_file strips the shorter prefix)",
+    "isolation-prefix-of-prefix": "F4: a configuration whose prefix is a proper prefix of another one's lists the other domain's resources in a shared directory (extract_name_from_file strips the shorter prefix)",
+    "unchecked-name": "a FileName produced by FilePath::file_name() / Path::entries() (FileName::new_unchecked) that FileName::new rejects flows into the creation API: the resource is created inside the root but list() never returns it (extract_name_from_file answers None): names do not round-trip",
 }
+# the six classes repaired in /repo; their former witnesses are replayed by the harness mode `reg`
+FIXED = ["47ad8e2", "8cf1846", "c6cc798", "19ab506", "a263455", "e2099f0"]
 
 
 def classify(line):
@@ -135,6 +128,7 @@ def run(ctx):
     for sh_i in range(nsh_fun):
         jobs.append(("fun:%d" % sh_i, [exe, "fun", "-", str(maxlen), str(sh_i), str(nsh_fun), seed, "4000" if th else "400"]))
     jobs.append(("iso", [exe, "iso", "-", "0", "0", "1", seed]))
+    jobs.insert(0, ("reg", [exe, "reg", "-", "0", "0", "1", seed]))   # corpus of repaired defects first
     # big jobs first
     r = run_pipes(jobs, driver)
     classes = {k[6:]: v for k, v in r["extra"].items() if k.startswith("class:")}
@@ -199,29 +193,52 @@ def run(ctx):
     ctx.cov["api_scenarios"] = api[:60]
     if rc != 0 or not api:
         ctx.violation("API-level isolation scenario did not run", {"rc": rc, "tail": out[-800:]}, no_input=True)
-    bad = []
+    bad = []        # explained by a prefix-of-prefix pair: the known finding F4
+    bad_other = []  # anything else
     for l in api:
-        m = re.match(r"ISO (\S+) (nodes|services)-listed-by-(\d) prefix=(\S+) -> (\S+) \[(.*)\]", l)
+        m = re.match(r"ISO (\S+) (nodes|services)-listed-by-(\d) prefix=(\S+) other=(\S+) -> (\S+) \[(.*)\]", l)
         if m:
-            scen, what, who, prefix, okv, listed = m.groups()
+            scen, what, who, prefix, other, okv, listed = m.groups()
             own = {"nodes": {"1": "alive:node-one", "2": "alive:node-two"}, "services": {"1": "svc-one", "2": "svc-two"}}[what][who]
             if okv != "true" or listed != own:
-                bad.append(l)
+                related = prefix != other and (prefix.startswith(other) or other.startswith(prefix))
+                (bad if related else bad_other).append(l)
         m = re.match(r"ISO (\S+) does-exist-by-(\d) (\S+) -> (.*)", l)
         if m:
             scen, who, svc, resv = m.groups()
             exp = "Some(Some(true))" if (who, svc) in (("1", "svc-one"), ("2", "svc-two")) else "Some(Some(false))"
             if resv.strip() != exp:
-                bad.append(l)
+                bad_other.append(l)
         if "scenario-panicked" in l:
-            bad.append(l)
+            bad_other.append(l)
     if bad:
         ctx.violation("F4 at API level: with two Configs in one root whose prefixes are prefixes of one another (\"a_\" vs \"a_1\") Node::list reports a node of the other domain "
                       "(as an alive node with a wrong id and no details): " + bad[0],
                       {"history": bad, "how_to_rerun": " ".join([exe, "iso", "-", "1", "0", "1", seed]),
                        "scenario": "Config A: root R, prefix a_ ; Config B: root R, prefix a_1 ; each creates one node and one publish-subscribe service; "
-                                   "then Node::list / Service::list / does_exist under each config"}, key=KEYS["isolation"])
+                                   "then Node::list / Service::list / does_exist under each config"}, key=KEYS["isolation-prefix-of-prefix"])
+    if bad_other:
+        ctx.violation("API-level isolation scenario: a domain does not list exactly its own node/service although the prefixes are unrelated: " + bad_other[0],
+                      {"history": bad_other, "how_to_rerun": " ".join([exe, "iso", "-", "1", "0", "1", seed])}, key=None)
+    # ---- executable whose file name FilePath accepts and FileName rejects (NodeDetails::new uses file_name())
+    import shutil, tempfile
+    d = tempfile.mkdtemp(prefix="verif_c19_exe_")
+    try:
+        exe2 = os.path.join(d, "x\\y")
+        shutil.copy(exe, exe2)
+        rc, out = vlib.sh("'%s' iso - 1 0 1 %d 2>/dev/null" % (exe2, int(seed) + 1), timeout=600)
+        l = [x for x in out.split("\n") if x.startswith("ISO api-disjoint nodes-listed-by-1")]
+        ctx.cov["api_backslash_executable"] = l[:1]
+        if not l or "[alive:node-one]" not in l[0]:
+            ctx.violation(WHAT["unchecked-name"] + "; API level: a process whose executable file name contains a backslash creates a node whose details cannot be read back: Node::list -> " + (l[0] if l else "scenario did not run"),
+                          {"history": ["cp <harness> '<dir>/x\\y'", "'<dir>/x\\y' iso - 1 0 1 <seed>"] + l,
+                           "scenario": "NodeDetails::new stores Process::from_self().executable()?.file_name() (FileName::new_unchecked over the last FilePath component); "
+                                       "FilePath allows '\\', FileName does not, so deserialising the node details (FileName::new) fails in every process"},
+                          key=KEYS["unchecked-name"])
+    finally:
+        shutil.rmtree(d, ignore_errors=True)
     ctx.cov["samples"] = samples[:8]
+    ctx.cov["repaired_in_repo"] = FIXED
     if not proof_ok:
         if not ctx.violations:
             ctx.violation("proof obligation no longer checks: %s" % ctx.broken,
@@ -231,7 +248,7 @@ def run(ctx):
     ctx.assumptions = [
         "theorems are about the Gallina model coq/model/Names.v (Linux build: no ':' rule; usize overflow of idx+len not modelled); tie = observational correspondence (G3) on the operations listed in coverage",
         "extraction: ExtrOcamlBasic only; OCaml driver parses/prints only; class tags on mismatches are computed with the extracted Coq predicates",
-        "from_path_and_file is modelled for builds with debug assertions (the harness profile); connection_name/extract_*_port_id are pub(crate): the harness executes a slice of the current naming_scheme.rs source text cut out by its build.rs",
+        "connection_name/extract_*_port_id are pub(crate): the harness executes a slice of the current naming_scheme.rs source text cut out by its build.rs",
         "Service::list / Node::list are exercised on the real file system only in the scenarios listed; their protection by hash/u128 parsing is observed, not modelled",
     ]
 
